@@ -1,4 +1,5 @@
 import LentilVerif.Lemmas.ZernikeFit
+import LentilVerif.Lemmas.ZernikeFitX
 import Mathlib.Tactic.NormNum
 import Mathlib.LinearAlgebra.Matrix.Notation
 import Mathlib.LinearAlgebra.Matrix.Determinant.Basic
@@ -10,9 +11,9 @@ import Mathlib.Tactic.Linarith
 
 Property theorems only; the model (`zfit`, `zcompose`, `zremove` over a basis matrix `B` whose columns are the requested modes in
 the requested order) is `Lemmas/ZernikeFit.lean`. Hypothesis everywhere: the requested modes are linearly independent on the
-mask, `IsUnit (Bᵀ * B).det`. Trusted contract: `np.linalg.pinv(basis)` is then `(BᵀB)⁻¹Bᵀ` (checked numerically on every run
-through the normal equations by tools/harness/c12.py). Subset, ordering, normalisation and caller coordinates only change `B`,
-and every theorem holds for every `B`. -/
+mask, `IsUnit (Bᵀ * B).det`. Trusted contract: `np.linalg.pinv(basis)` is then `(BᵀB)⁻¹Bᵀ` (compared on every call of every
+generated history with the executable model `fitX`, which `exec_model_is_abstract` proves equal to `zfit`). Subset, ordering,
+normalisation and caller coordinates only change `B`, and every theorem holds for every `B`. -/
 namespace Lentil.C12
 open Lentil Matrix
 
@@ -73,11 +74,68 @@ theorem fit_compose_zernike {K : Type} [Field K] (sqrtN : Nat → K) (cos sin : 
       zremove B (zcompose B c) = 0 :=
   ⟨fit_compose _ h c, remove_fit_zero _ h opd, remove_idempotent _ h opd, remove_span_zero _ h c⟩
 
-/-- non-vacuity: piston and tilt sampled at three points are linearly independent (`det BᵀB = 6`) -/
-def exB : Matrix (Fin 3) (Fin 2) ℚ := !![1, 0; 1, 1; 1, 2]
-example : IsUnit (exBᵀ * exB).det := by
-  rw [isUnit_iff_ne_zero, Matrix.det_fin_two]
-  simp [exB, Matrix.mul_apply, Fin.sum_univ_three]
-  norm_num
+/-- **order clause**: permuting the requested modes permutes the fitted coefficients (for any basis, invertible or not) -/
+theorem fit_order_independent {F : Type} [Field F] (B : Matrix P M F) (σ : M ≃ M) (opd : P → F) :
+    zfit (B.submatrix id σ) opd = zfit B opd ∘ σ := zfit_perm B σ opd
+
+/-! ## the executable model (`Model/ZernikeFit.lean`, run by the driver against the implementation) is the abstract model -/
+
+/-- the executable `fitX` (Cramer / Laplace solution of the normal equations `BᵀB·x = Bᵀ·opd`, `p` samples, `k` requested modes),
+`composeX` and `removeX` are `zfit`, `zcompose`, `zremove` of the basis matrix `blockOf p k B` -/
+theorem exec_model_is_abstract {F : Type} [Field F] (p k : ℕ) (B : ℕ → ℕ → F) (opd c : ℕ → F)
+    (h : IsUnit ((blockOf p k B)ᵀ * blockOf p k B).det) :
+    (fun a : Fin k => fitX p k B opd a) = zfit (blockOf p k B) (fun s : Fin p => opd s) ∧
+    (fun s : Fin p => composeX k B c s) = zcompose (blockOf p k B) (fun a : Fin k => c a) ∧
+    (fun s : Fin p => removeX p k B opd s) = zremove (blockOf p k B) (fun s : Fin p => opd s) :=
+  ⟨fitX_eq_zfit p k B opd h, composeX_eq_zcompose p k B c, removeX_eq_zremove p k B opd h⟩
+
+/-- hence the property holds of the executable definitions themselves, for the basis built from the C11 mode model
+(`zBasisX`: entry (sample s, requested mode a) = `zernAt … (modes a) normalize (rho s) (theta s) (mask s)`), any list of modes in any
+order, either normalisation, any coordinates: fit∘compose = id, fit∘remove = 0, remove idempotent, remove∘compose = 0 -/
+theorem exec_fit_compose_remove {F : Type} [Field F] (sqrtN : ℕ → F) (cos sin : F → F) (p k : ℕ) (modes : ℕ → ℕ) (normalize : Bool)
+    (rho theta : ℕ → F) (mask : ℕ → Bool) (opd c : ℕ → F)
+    (h : IsUnit ((blockOf p k (zBasisX sqrtN cos sin modes normalize rho theta mask))ᵀ *
+      blockOf p k (zBasisX sqrtN cos sin modes normalize rho theta mask)).det) :
+    let B := zBasisX sqrtN cos sin modes normalize rho theta mask
+    (∀ a, a < k → fitX p k B (composeX k B c) a = c a) ∧
+    (∀ a, a < k → fitX p k B (removeX p k B opd) a = 0) ∧
+    (∀ s, s < p → removeX p k B (removeX p k B opd) s = removeX p k B opd s) ∧
+    (∀ s, s < p → removeX p k B (composeX k B c) s = 0) := by
+  intro B
+  have ef := fun o => fitX_eq_zfit p k B o h
+  have er := fun o => removeX_eq_zremove p k B o h
+  have ec := composeX_eq_zcompose p k B c
+  refine ⟨?_, ?_, ?_, ?_⟩
+  · intro a ha
+    have e := congrFun (ef (composeX k B c)) ⟨a, ha⟩
+    rw [ec, fit_compose _ h] at e
+    exact e
+  · intro a ha
+    have e := congrFun (ef (removeX p k B opd)) ⟨a, ha⟩
+    rw [er opd, remove_fit_zero _ h] at e
+    exact e
+  · intro s hs
+    have e := congrFun (er (removeX p k B opd)) ⟨s, hs⟩
+    rw [er opd, remove_idempotent _ h] at e
+    exact e.trans (congrFun (er opd) ⟨s, hs⟩).symm
+  · intro s hs
+    have e := congrFun (er (composeX k B c)) ⟨s, hs⟩
+    rw [ec, remove_span_zero _ h] at e
+    exact e
+
+/-- `zernike_compose` takes a coefficient vector indexed by Noll index − 1 (`Gen.composeNoll`, regenerated from the source): with the
+coefficients of the requested modes at their positions it composes `B·c` -/
+theorem compose_positions {F : Type} [Field F] (sqrtN : ℕ → F) (cos sin : F → F) (k L : ℕ) (modes : ℕ → ℕ) (c : ℕ → F) (normalize : Bool)
+    (rho theta : ℕ → F) (mask : ℕ → Bool) (s : ℕ) (hm : ∀ a, a < k → 1 ≤ modes a ∧ modes a ≤ L) :
+    composeFullX sqrtN cos sin (fun i => (Gen.composeNoll i).toNat) L
+        (fun i => ∑ a ∈ Finset.range k, if modes a = i + 1 then c a else 0) normalize rho theta mask s
+      = composeX k (zBasisX sqrtN cos sin modes normalize rho theta mask) c s :=
+  composeFull_positions sqrtN cos sin k L modes c normalize rho theta mask s hm
+
+/-- **the independence hypothesis is satisfiable by a Zernike basis**: modes [1, 4, 2] (piston, defocus, x-tilt), unnormalised,
+sampled at ρ = 0, 1/2, 1 on the ray θ = 0, over ℚ: the model's basis matrix is `[[1,−1,0],[1,−1/2,1/2],[1,1,1]]`, `det(BᵀB) = 1/4` -/
+theorem zernike_basis_independent_instance :
+    blockOf 3 3 exBasis = !![1, -1, 0; 1, -1/2, 1/2; 1, 1, 1] ∧ IsUnit ((blockOf 3 3 exBasis)ᵀ * blockOf 3 3 exBasis).det :=
+  ⟨exBasis_entries, exBasis_independent⟩
 
 end Lentil.C12
